@@ -463,11 +463,13 @@ func (l *Linter) LintFile(path string, project *Project) ([]*Error, error) {
 	}
 
 	if l.errFmt != nil {
-		l.errFmt.PrintErrors(l.out, errs, src)
+		if err := l.errFmt.PrintErrors(l.out, errs, src); err != nil {
+			return nil, err
+		}
 	} else {
 		l.printErrors(errs, src)
 	}
-	return errs, err
+	return errs, nil
 }
 
 // LintStdin lints the content read from STDIN. The stdin parameter is a reader to read from STDIN,
@@ -505,7 +507,9 @@ func (l *Linter) Lint(path string, content []byte, project *Project) ([]*Error, 
 		return nil, err
 	}
 	if l.errFmt != nil {
-		l.errFmt.PrintErrors(l.out, errs, content)
+		if err := l.errFmt.PrintErrors(l.out, errs, content); err != nil {
+			return nil, err
+		}
 	} else {
 		l.printErrors(errs, content)
 	}
